@@ -107,7 +107,7 @@ impl StrategyPlanner {
                         == source.symlink_target.clone().map(std::path::PathBuf::into_os_string)
                 {
                     SyncAction::Skip
-                } else if self.follow_symlinks && self.followed_copy_is_current(source, &dest_meta) {
+                } else if self.follow_symlinks && self.followed_copy_is_current(source, &dest_path, &dest_meta) {
                     // follow mode keeps a copy of the file the link resolves to: nothing to do when
                     // that copy is up to date (the entry used to be copied again on every run)
                     SyncAction::Skip
@@ -395,7 +395,12 @@ impl StrategyPlanner {
     /// Check if file needs update based on size and mtime
     /// Follow mode: is the regular file at the destination an up-to-date copy of the file the
     /// source link resolves to (judged like any other file: size and modification time)?
-    fn followed_copy_is_current(&self, source: &FileEntry, dest_meta: &std::fs::Metadata) -> bool {
+    fn followed_copy_is_current(
+        &self,
+        source: &FileEntry,
+        dest_path: &Path,
+        dest_meta: &std::fs::Metadata,
+    ) -> bool {
         if !dest_meta.is_file() {
             return false;
         }
@@ -408,6 +413,20 @@ impl StrategyPlanner {
         };
         if !referent.is_file() {
             return false;
+        }
+        // --checksum compares contents (needs_update says "always" then, and the copy was made
+        // again on every run)
+        if self.checksum {
+            if let Some(ref verifier) = self.verifier {
+                return referent.len() == dest_meta.len()
+                    && matches!(
+                        (
+                            verifier.compute_file_checksum(&source.path),
+                            verifier.compute_file_checksum(dest_path),
+                        ),
+                        (Ok(a), Ok(b)) if a == b
+                    );
+            }
         }
         let mut as_file = source.clone();
         as_file.size = referent.len();
